@@ -28,11 +28,22 @@ def _prog(cfg):
     return _P[cfg]
 
 
+# private functions analysed as roots of their own because a property names them (C11: the short-haystack
+# fallback of the vector prefilters is reachable only through the meta searcher)
+import re as _re
+EXTRA_ROOTS = _re.compile(r'^memmem::searcher::Prefilter::(find_simple|sse2|avx2|neon|simd128|fallback(::<.*>)?)$')
+
+
 def public_roots(P):
     out = []
+    for key, inst in P.instances.items():
+        if EXTRA_ROOTS.match(inst.path) and inst.has_body:
+            out.append(key)
     for key in P.roots:
         inst = P.instances[key]
         f = P.fn_facts.get(inst.path)
+        if key in out:
+            continue
         if f and f.get('reachable') and inst.has_body:
             if f.get('impl_trait') == 'core::fmt::Debug':
                 continue        # Debug formatting is not part of any property
